@@ -197,8 +197,173 @@ def reach_task(payload):
     return res
 
 
+def _name_of(line):
+    return line.split(',', 1)[0].strip()
+
+
+def _run_report(lines):
+    from vf.core import sim
+    o = sim.simulate(lines, None, want=('report',))
+    return {'status': o['status'], 'exc': (o.get('exc') or '')[:200], 'report': sim.strip_clock(o['report']) if o.get('report') is not None else None}
+
+
+def default_task(payload):
+    """'the schema's default is the one the simulator enforces': for each parameter, the run that leaves it out and the run that supplies the
+    schema's default (in the schema's unit) must be the same run - same acceptance, same report."""
+    res = check.new_result()
+    fam, lines = payload['fam_id'], payload['lines']
+    base_names = {_name_of(l) for l in lines}
+    shared = None
+    for name, dflt in payload['probes']:
+        omitted = [l for l in lines if _name_of(l) != name]
+        if name not in base_names and shared is not None:
+            a = shared
+        else:
+            tag = runner.fork_exec(_run_report, omitted, timeout=900)
+            res['execs'] += 1
+            if tag[0] != 'ok':
+                res['infra'].append(f'[{fam}] run without {name!r} failed in the harness: {tag[1]}')
+                continue
+            a = tag[1]
+            if name not in base_names:
+                shared = a
+        tag = runner.fork_exec(_run_report, omitted + [f'{name}, {dflt}'], timeout=900)
+        res['execs'] += 1
+        if tag[0] != 'ok':
+            res['infra'].append(f'[{fam}] run with {name!r} = {dflt} failed in the harness: {tag[1]}')
+            continue
+        b = tag[1]
+        res['steps'] += 1
+        d = check.digest([fam, name])
+        res['states'].append(d)
+        ctx = f'[{fam}] {name!r}: left out vs supplied as the schema default {dflt!r}'
+        if a['status'] != 'accepted' and b['status'] != 'accepted':
+            check.bump(res, 'default_probe_both_rejected')
+            continue
+        res['accepted'] += 1
+        if a['status'] != b['status']:
+            which = 'left out' if a['status'] != 'accepted' else 'supplied'
+            check.fail(res, f'schema_default_not_enforced/acceptance/{name}', f'{ctx}: only the run with the parameter {which} is rejected ({(a if which == "left out" else b)["exc"]})')
+            continue
+        if a['report'] != b['report']:
+            la, lb = a['report'].splitlines(), b['report'].splitlines()
+            dl = next(((x, y) for x, y in zip(la, lb) if x != y), (f'{len(la)} lines', f'{len(lb)} lines'))
+            n = sum(1 for x, y in zip(la, lb) if x != y) + abs(len(la) - len(lb))
+            check.fail(res, f'schema_default_not_enforced/report/{name}', f'{ctx}: reports differ in {n} lines, first {dl[0].strip()!r} vs {dl[1].strip()!r}')
+        else:
+            res['nontrivial'].append(d)
+    return res
+
+
+def _special_cases(src_dir):
+    """read-loop branches that single out a parameter by name: {(kind, text): [assignment targets outside the parameter itself]}"""
+    import ast
+    out = []
+    own = ('ParameterToModify', 'ParamToModify')
+
+    def root_and_attr(t):
+        chain = []
+        while isinstance(t, (ast.Attribute, ast.Subscript)):
+            if isinstance(t, ast.Attribute):
+                chain.append(t.attr)
+            t = t.value
+        return (t.id if isinstance(t, ast.Name) else None), chain[::-1]
+
+    def names_in(test):
+        found = []
+        for n in ast.walk(test):
+            if isinstance(n, ast.Compare) and len(n.ops) == 1 and isinstance(n.ops[0], ast.Eq):
+                sides = [n.left, n.comparators[0]]
+                txt = ast.unparse(n)
+                if '.Name' in txt and any(isinstance(x, ast.Constant) and isinstance(x.value, str) for x in sides):
+                    found.append(('eq', next(x.value for x in sides if isinstance(x, ast.Constant))))
+            if isinstance(n, ast.Call) and isinstance(n.func, ast.Attribute) and n.func.attr == 'startswith' and '.Name' in ast.unparse(n.func.value) \
+                    and n.args and isinstance(n.args[0], ast.Constant):
+                found.append(('prefix', n.args[0].value))
+        return found
+
+    for fn in sorted(glob.glob(os.path.join(src_dir, '*.py'))):
+        with open(fn, encoding='UTF-8') as f:
+            tree = ast.parse(f.read())
+        for node in ast.walk(tree):
+            if not isinstance(node, ast.If):
+                continue
+            names = names_in(node.test)
+            if not names:
+                continue
+            others = []
+            for st in node.body:
+                for sub in ast.walk(st):
+                    tg = []
+                    if isinstance(sub, ast.Assign):
+                        tg = sub.targets
+                    elif isinstance(sub, (ast.AugAssign, ast.AnnAssign)):
+                        tg = [sub.target]
+                    for t in tg:
+                        for tt in (t.elts if isinstance(t, ast.Tuple) else [t]):
+                            r, chain = root_and_attr(tt)
+                            if r not in own:
+                                others.append(chain)
+            out.append((names, others))
+    return out
+
+
+def presence_switched(arg):
+    """Parameters for which 'left out' is by design not the same as 'default supplied', found mechanically in the source:
+      * the parameter's `.Provided` flag is consulted somewhere;
+      * a read loop singles the parameter out by name and, in that branch, assigns anything other than the parameter itself (a mode flag,
+        another parameter, a derived attribute) - presence is then a switch;
+      * the parameter's value is assigned inside another parameter's branch - its default is conditional on that other parameter.
+    A branch that only rewrites the parameter's own value/units (e.g. a unit conversion) is NOT a switch: there the relation must hold."""
+    import re
+    fam_id, lines = arg
+    src_dir = os.path.join(runner.repo_src(), 'geophires_x')
+    attrs = set()
+    for fn in glob.glob(os.path.join(src_dir, '*.py')):
+        with open(fn, encoding='UTF-8') as f:
+            attrs |= set(re.findall(r'(\w+)\.Provided\b', f.read()))
+    cases = _special_cases(src_dir)
+    m, mods = c07._build(lines, read=False)
+    params = {}
+    for nm, mod in mods:
+        for a, v in vars(mod).items():
+            if hasattr(v, 'Name') and hasattr(v, 'Provided'):
+                params.setdefault(a, set()).add(v.Name.strip())
+    all_names = set().union(*params.values()) if params else set()
+    out = {}
+    for a in attrs & set(params):
+        for n in params[a]:
+            out[n] = 'Provided flag consulted'
+    for names, others in cases:
+        if not others:
+            continue
+        for kind, text in names:
+            for n in all_names:
+                if (kind == 'eq' and n == text.strip()) or (kind == 'prefix' and n.startswith(text)):
+                    out.setdefault(n, 'presence is a switch in a read loop')
+        for chain in others:
+            for a in chain:
+                for n in params.get(a, ()):
+                    out.setdefault(n, "assigned in another parameter's read-loop branch")
+    return out
+
+
+def _default_text(s):
+    d = s.get('default')
+    if d is None or isinstance(d, (list, dict)):
+        return None
+    if isinstance(d, bool):
+        return 'True' if d else 'False'
+    if isinstance(d, (int, float)):
+        return repr(d)
+    d = str(d).strip()
+    if not d or s.get('type') == 'string' and not d.replace('.', '', 1).lstrip('-').isdigit():
+        return None         # file names, free text
+    return d
+
+
 def task(payload):
-    return reach_task(payload)
+    return default_task(payload) if 'probes' in payload and 'fam_id' in payload and payload.get('stage') == 'default' else reach_task(payload)
 
 
 def run(tier, seed, budget=None):
@@ -314,6 +479,45 @@ def run(tier, seed, budget=None):
             for f in tagged[1]['fails']:
                 f['key'] = 'schema_bound_not_enforced/' + f['key']
         col.add(base_idx, pp[idx], tagged)
+    # --- the schema's defaults are the values used when a parameter is left out (every family, every parameter it accepts)
+    fams = c07.family_list(tier)
+    quick_fams = ('std-mpf-subORC', 'std-lhs-industrial', 'std-tdp-superORC-cogen', 'addons-sdacgt', 'std-cyl-district')
+    dp = []
+    redefined = set(res['sets'].get('redefined_by_specialised_modules') or [])
+    for fam_id, fl in fams:
+        if fam_id == 'hip-ra-x' or (tier == 'quick' and fam_id not in quick_fams):
+            continue
+        tagf = runner.fork_exec(c07.discover, (fam_id, fl), timeout=300)
+        if tagf[0] != 'ok':
+            res2['infra'].append(f'discovery failed for {fam_id}: {tagf[1]}')
+            continue
+        tags = runner.fork_exec(presence_switched, (fam_id, fl), timeout=300)
+        if tags[0] != 'ok':
+            res2['infra'].append(f'presence scan failed for {fam_id}: {tags[1]}')
+            continue
+        switched = tags[1]
+        names = sorted(set(tagf[1]['params']) | {_name_of(l) for l in fl})
+        pr = []
+        for n in names:
+            if n not in props or n in redefined or _default_text(props[n]) is None:
+                continue
+            sp = props[n]
+            if n in switched:
+                check.note(res2, 'default_probe_skipped_by_design', f'{n} ({switched[n]})')
+                continue
+            try:
+                dv = float(sp['default'])
+                if (sp.get('minimum') is not None and dv < float(sp['minimum'])) or (sp.get('maximum') is not None and dv > float(sp['maximum'])):
+                    check.note(res2, 'default_probe_skipped_default_is_a_not_provided_sentinel', n)
+                    continue
+            except (TypeError, ValueError):
+                pass
+            pr.append([n, _default_text(sp)])
+        for i in range(0, len(pr), 12):
+            dp.append({'stage': 'default', 'fam_id': fam_id, 'lines': fl, 'probes': pr[i:i + 12]})
+    for idx, tagged in runner.run_tasks(default_task, dp, deadline=deadline):
+        col.add(base_idx + 2 + idx, {k: v for k, v in dp[idx].items() if k != 'lines'}, tagged)
+    col.add(base_idx + 2 + len(dp), {'stage': 'probe-planning'}, ('ok', res2))
     # --- result schema fields are extractable
     res3 = check.new_result()
     rs = gen['geophires-result.json']['properties']
@@ -340,7 +544,9 @@ def run(tier, seed, budget=None):
     col.rule = ('reachability over the complete product Reservoir Model 0..8 x Is AGS x Economic Model 1..4 x Power Plant Type 1..9 x End-Use Option (8) x '
                 'add-on x S-DAC-GT = 10368 real Model constructions (+ parameter reading where it succeeds); states = reachable module-class tuples; '
                 'then complete comparison of the union of accepted parameters with the generated schema, committed vs generated files, enforcement '
-                'probes at the schema bounds for the standard family, and every result-schema field against all stored reports')
+                'probes at the schema bounds for the standard family, default-enforcement probes (for every family and every parameter it accepts: the '
+                'run that leaves the parameter out vs the run that supplies the schema default - same acceptance, same report), and every '
+                'result-schema field against all stored reports')
     col.assumptions = ['parameters redefined with different defaults/bounds by specialised modules are excluded from the bound/default clause (listed in evidence)',
                        'result-field extractability is judged on the stored reports of tests/ plus five generated reports; fields no current report prints are accepted if the client extracts them from a line carrying that label (listed in evidence)']
     col.extra['reachable_class_tuples'] = len(class_tuples)
